@@ -2,7 +2,7 @@
 (* Exhaustive exploration of CasConc: every interleaving of small concurrent programs over all      *)
 (* initial maps.  Programs and the initial map are chosen in Init, so one run covers all of them.   *)
 EXTENDS CasConc, Json
-CONSTANTS NT, OpsPerThread, ProgKeys, ProgContents, WalN, WithReads, WithCleanup, WithCkpt, WithGuard
+CONSTANTS NT, OpsPerThread, ProgKeys, ProgContents, WalN, WithReads, WithCleanup, WithCkpt, WithGuard, WithFail
 VARIABLES s, hist   \* hist: the schedule (thread ids) so far - hidden by View, printed by the generator config
 
 OpMenu == {[op |-> "put", k |-> k, c |-> c] : k \in ProgKeys, c \in ProgContents}
@@ -11,6 +11,8 @@ OpMenu == {[op |-> "put", k |-> k, c |-> c] : k \in ProgKeys, c \in ProgContents
      \cup (IF WithReads THEN {[op |-> "get", k |-> k] : k \in ProgKeys} ELSE {})
      \cup (IF WithCkpt THEN {[op |-> "ckpt"]} ELSE {})
      \cup (IF WithCleanup THEN {[op |-> "cleanup"]} ELSE {})
+     \* a commit whose rename fails after its intent was registered (the reverted commit must not take anybody else's protection)
+     \cup (IF WithFail THEN {[op |-> "putfail", k |-> k, c |-> c] : k \in ProgKeys, c \in ProgContents} ELSE {})
 
 \* WithGuard: thread 1 keeps an index read guard alive across a read of its own (finding F6)
 GuardProg == <<[op |-> "guard"], [op |-> "get", k |-> 1], [op |-> "unguard"]>>
